@@ -80,6 +80,9 @@ Step(st, o) ==
   CASE o.op = "lit3" ->      \* x = [0, 1, 2]
          LET st1 == [st EXCEPT !.arrs = Append(@, <<IntV(0), IntV(1), IntV(2)>>)] IN
          Same(SetVar(st1, o.x, SliceV(Len(st1.arrs), 0, 3, 3)), OKR)
+    [] o.op = "litmix" ->    \* x = [7, "s"]
+         LET st1 == [st EXCEPT !.arrs = Append(@, <<IntV(7), StrV("s")>>)] IN
+         Same(SetVar(st1, o.x, SliceV(Len(st1.arrs), 0, 2, 2)), OKR)
     [] o.op = "make" ->      \* x = make([]interface, i, j)
          LET st1 == [st EXCEPT !.arrs = Append(@, [q \in 1..o.j.i |-> NilV])] IN
          Same(SetVar(st1, o.x, SliceV(Len(st1.arrs), 0, o.i.i, o.j.i)), OKR)
@@ -178,14 +181,20 @@ Step(st, o) ==
          LET st0 == [st EXCEPT !.maps = Append(@, <<>>)]
              st1 == [st0 EXCEPT !.structs = Append(@, [A |-> IntV(0), B |-> StrV(""), M |-> TMapV(Len(st0.maps))])] IN
          Same(SetVar(st1, o.x, StructV(Len(st1.structs))), OKR)
-    [] o.op = "concat" ->        \* x = y + z : Go's append(y, z...) -- within y's capacity the elements land in y's storage, else in a new array
+    [] o.op = "concat" ->        \* x = y + z : Go's append(y, z...) -- within y's capacity the elements land in y's storage, else in a new array;
+                                 \* into a typed y every element of z is converted first: one that cannot be is an error and NOTHING is written
          LET y == st.vars[o.y]  z == st.vars[o.k.s] IN
-         IF ~IsSlice(y) \/ ~IsSlice(z) \/ y.t = "tslice" THEN Same(st, OpenR)
-         ELSE LET n == y.len + z.len  zs == Elems(st, z) IN
+         IF ~IsSlice(y) \/ ~IsSlice(z) THEN Same(st, OpenR)
+         ELSE LET zs0 == Elems(st, z)
+                  cz == [q \in 1..Len(zs0) |-> IF y.t = "tslice" THEN ToInt64(zs0[q]) ELSE [ok |-> TRUE, v |-> zs0[q]]]
+                  fill == IF y.t = "tslice" THEN IntV(0) ELSE NilV
+                  n == y.len + z.len IN
+              IF \E q \in 1..Len(zs0) : ~cz[q].ok THEN Same(st, ErrR)
+              ELSE LET zs == [q \in 1..Len(zs0) |-> cz[q].v] IN
               IF n <= y.cap THEN Same(SetVar([st EXCEPT !.arrs[y.r] = [q \in 1..Len(@) |-> IF q > y.off + y.len /\ q <= y.off + n THEN zs[q - y.off - y.len] ELSE @[q]]],
                                              o.x, V(y.t, 0, "", y.r, y.off, n, y.cap)), OKR)
               ELSE IF o.cap < n THEN {}
-              ELSE LET st1 == [st EXCEPT !.arrs = Append(@, [q \in 1..o.cap |-> IF q <= y.len THEN Elem(st, y, q - 1) ELSE IF q <= n THEN zs[q - y.len] ELSE NilV])] IN
+              ELSE LET st1 == [st EXCEPT !.arrs = Append(@, [q \in 1..o.cap |-> IF q <= y.len THEN Elem(st, y, q - 1) ELSE IF q <= n THEN zs[q - y.len] ELSE fill])] IN
                    Same(SetVar(st1, o.x, V(y.t, 0, "", Len(st1.arrs), 0, n, o.cap)), OKR)
     [] o.op = "strlit" -> {[st |-> NewStr(st, o.x, o.cs), res |-> OKR]}       \* x = "abc"  (cs = its characters)
     [] o.op = "tmapnew" -> LET st1 == [st EXCEPT !.maps = Append(@, <<>>)] IN Same(SetVar(st1, o.x, TMapV(Len(st1.maps))), OKR)    \* x = make(map[string]int64)
